@@ -86,6 +86,7 @@ class Prog:
         self.n_inv = 0
         self.n_fp = 0
         self.single = False  # a single-precision array took part in this program
+        self.trace = []
 
     # -- small helpers -----------------------------------------------------------------------
     def count(self, name, n=1):
@@ -224,6 +225,11 @@ class Prog:
             where = in_tenpy[-1].name if in_tenpy else 'harness'
             if not in_tenpy:
                 raise
+            if 'c04' in self.monitors:
+                self.trace.append({'op': name, 'error': type(e).__name__, 'where': where,
+                                   'log': repr(self.log[-1])[:300] if len(self.log) > nlog else ''})
+                self.aborted = True
+                return True
             if 'read-only' in str(e):
                 self.violation('%s:writes-into-shared-leg-array@%s' % (name, where),
                                'write into a (read-only) slices/charges array of a shared leg: %s' % str(e)[:200])
@@ -264,8 +270,12 @@ class Prog:
         for s in res.get('new', []):
             if s not in self.slots:
                 self.add_slot(s)
-        if self.tracer is not None:
-            self.tracer(self, name, res)
+        if 'c04' in self.monitors:
+            rec = {'op': name, 'log': repr(self.log[-1])[:300] if len(self.log) > nlog else '',
+                   'slots': [observe_array(s.arr) for s in touched]}
+            if 'scalar' in res:
+                rec['scalar'] = complex(res['scalar'][0]) if np.ndim(res['scalar'][0]) == 0 else repr(res['scalar'][0])
+            self.trace.append(rec)
         return True
 
     def alias_pairs(self):
@@ -281,7 +291,7 @@ class Prog:
         return out
 
     def verify_slot(self, s, name):
-        if 'c01' in self.monitors or 'c04' in self.monitors:
+        if 'c01' in self.monitors:
             self.n_cmp += 1
             try:
                 T.compare_slot(s, self.mod, single=self.single)
@@ -293,7 +303,7 @@ class Prog:
                 self.violation('%s:%s' % (name, kind), what)
 
     def check_scalar(self, name, got, exp, dt):
-        if 'c01' not in self.monitors and 'c04' not in self.monitors:
+        if 'c01' not in self.monitors:
             return
         self.n_cmp += 1
         try:
@@ -378,3 +388,42 @@ class Prog:
         except Exception as e:
             done.append('stopped:%s' % type(e).__name__)
         return '+'.join(done)
+
+
+def observe_array(a):
+    """Everything observable about an Array, for the two-configuration differential (C04)."""
+    blocks = []
+    for q, b in zip(np.asarray(a._qdata).tolist(), a._data):
+        blocks.append((tuple(q), np.array(b)))
+    blocks.sort(key=lambda x: x[0])
+    return {
+        'shape': tuple(a.shape),
+        'dtype': str(a.dtype),
+        'labels': list(a._labels),
+        'qtotal': np.asarray(a.qtotal).tolist(),
+        'legs': [(type(l).__name__, int(l.qconj), np.asarray(l.slices).tolist(), np.asarray(l.charges).tolist()) for l in a.legs],
+        'blocks': blocks,
+    }
+
+
+def compare_observations(x, y, single=False):
+    """Return None if equal (values up to tolerance), else a (kind, text) describing the first difference."""
+    # dtype is not compared: C04 names legs, labels, total charge, block structure and values
+    for key in ('shape', 'labels', 'qtotal', 'legs'):
+        if x[key] != y[key]:
+            return key, '%s: %r vs %r' % (key, x[key], y[key])
+    qx = [q for q, _ in x['blocks']]
+    qy = [q for q, _ in y['blocks']]
+    if qx != qy:
+        # a stored block that is numerically zero in one configuration and absent in the other is still a
+        # difference in "block structure" (the statement of C04 names it)
+        return 'block-structure', 'stored blocks %r vs %r' % (qx, qy)
+    tol = 3e-4 if single else 1e-10
+    for (q, bx), (_, by) in zip(x['blocks'], y['blocks']):
+        if bx.shape != by.shape:
+            return 'block-shape', 'block %r: %s vs %s' % (q, bx.shape, by.shape)
+        if bx.size:
+            scale = max(1.0, float(np.max(np.abs(bx))))
+            if not np.all(np.abs(bx - by) <= tol * scale):
+                return 'value', 'block %r differs by %r' % (q, float(np.max(np.abs(bx - by))))
+    return None
